@@ -256,7 +256,8 @@ package frugal
 //@   ensures (h.requestSizeLimit == 0 || len(data) <= h.requestSizeLimit) && len(data) != 4 && ncalls("lib.fHTTPTransport.makeRequest") == 0 ==> err != nil && ttype(err) == TRANSPORT_EXCEPTION_NOT_OPEN
 //@   modifies *
 
-// HTTP status 413 from the server is reported as RESPONSE_TOO_LARGE.
+// HTTP status 413 from the server is reported as RESPONSE_TOO_LARGE, and nothing else is: the response
+// limit is enforced by the server, where the size it is defined on is known.
 // The HTTP round trip gets a context whose timeout is the FContext's (C13).
 //@ func lib.fHTTPTransport.makeRequest(h, fCtx, requestPayload)
 //@   locals encoded, encoder, err, err, ctx, cancel, request, err, key, value, key, value, response, buf, err, err, body, bts
@@ -264,6 +265,8 @@ package frugal
 //@   ensures ncalls("http.Client.Do") == 1 ==> callarg("context.WithTimeout", 0, 1) == callret("lib.FContext.Timeout", 0, 0)
 //@   ensures ncalls("http.Client.Do") == 1 ==> callarg("http.Request.WithContext", 0, 1) == callret("context.WithTimeout", 0, 0) && callarg("http.Client.Do", 0, 1) == callret("http.Request.WithContext", 0, 0)
 //@   ensures ncalls("http.Client.Do") == 1 && callret("http.Client.Do", 0, 1) == nil && response.StatusCode == 413 ==> err != nil && ttype(err) == TRANSPORT_EXCEPTION_RESPONSE_TOO_LARGE && implements(err, "thrift.TTransportException")
+//@   ensures ncalls("http.Client.Do") == 1 && callret("http.Client.Do", 0, 1) == nil && response.StatusCode != 413 ==> ncalls("thrift.NewTTransportException") <= 1
+//@   ensures ncalls("http.Client.Do") == 1 && callret("http.Client.Do", 0, 1) == nil && response.StatusCode != 413 && ncalls("thrift.NewTTransportException") == 1 ==> callarg("thrift.NewTTransportException", 0, 0) == TRANSPORT_EXCEPTION_UNKNOWN && response.StatusCode >= 300
 //@   modifies *
 
 // The request message is assembled in a buffer limited to the transport's request size limit.
